@@ -6,6 +6,7 @@ import Driver.Level2FFam
 import Driver.KernFam
 import Driver.MeshFam
 import Driver.DispFam
+import Driver.DispFam2
 import Driver.ValidFam
 import Driver.StyleFam
 import Driver.StyleStateFam
@@ -40,7 +41,7 @@ def stepLine (st : St) (line : String) : St × String :=
   | "sstate" :: _ => (st, StyleStateFam.step (line.drop 7).toString)
   | "trimesh" :: _ => (st, TrimeshFam.step (line.drop 8).toString)
   | "poly" :: _ => (st, PolyFam.step (line.drop 5).toString)
-  | "disp" :: _ => (st, DispFam.step (line.drop 5).toString)
+  | "disp" :: _ => (st, DispFam2.step (line.drop 5).toString)
   | "sym" :: _ => (st, SymFam.step (line.drop 4).toString)
   | "iface" :: _ => (st, IfaceFam.step (line.drop 6).toString)
   | "dict" :: _ => (st, DictFam.step (line.drop 5).toString)
